@@ -503,7 +503,7 @@ impl Run {
     }
 }
 
-fn execute(inet: Arc<Internet>, limits: (u8, u8), queries: &[(Name, RecordType)]) -> Run {
+fn execute(inet: Arc<Internet>, limits: (u8, u8), case_rand: bool, queries: &[(Name, RecordType)]) -> Run {
     vsim::install_hook_clock_tokio();
     let rt = vsim::rt();
     let run = rt.block_on(async {
@@ -517,6 +517,7 @@ fn execute(inet: Arc<Internet>, limits: (u8, u8), queries: &[(Name, RecordType)]
             deny_answers: vec!["6.6.8.0/24".parse().unwrap()],
             ns_cache_size: 64,
             response_cache_size: 4096,
+            case_randomization: case_rand,
             ..RecursorOptions::default()
         };
         let rec = Recursor::with_options(&[IpAddr::V4(inet.servers[0].ip)], opts, net.clone()).expect("recursor");
@@ -548,8 +549,8 @@ fn execute(inet: Arc<Internet>, limits: (u8, u8), queries: &[(Name, RecordType)]
     run
 }
 
-fn execute_caught(inet: Arc<Internet>, limits: (u8, u8), queries: &[(Name, RecordType)]) -> Run {
-    match vcore::catch(|| execute(inet, limits, queries)) {
+fn execute_caught(inet: Arc<Internet>, limits: (u8, u8), case_rand: bool, queries: &[(Name, RecordType)]) -> Run {
+    match vcore::catch(|| execute(inet, limits, case_rand, queries)) {
         Ok(r) => r,
         Err(p) => Run {
             steps: vec![Step {
@@ -731,6 +732,8 @@ struct CaseDesc {
     /// (kind, section) list
     inj: Vec<(usize, usize)>,
     queries: Vec<(String, String)>,
+    /// RecursorOptions::case_randomization (0x20)
+    case_rand: bool,
 }
 
 impl CaseDesc {
@@ -741,6 +744,7 @@ impl CaseDesc {
             "hostile_zone": self.hostile.map(|z| ZONE_NAMES[z]),
             "injections": self.inj.iter().map(|(k, s)| json!({"kind": k, "kind_name": KINDS[*k], "section": s, "section_name": SECTIONS[*s]})).collect::<Vec<_>>(),
             "queries": self.queries.iter().map(|(a, b)| json!([a, b])).collect::<Vec<_>>(),
+            "case_randomization": self.case_rand,
         })
     }
     fn from_json(v: &Value) -> CaseDesc {
@@ -750,6 +754,7 @@ impl CaseDesc {
             hostile: v["hostile_zone"].as_str().and_then(|s| ZONE_NAMES.iter().position(|x| *x == s)),
             inj: v["injections"].as_array().map(|a| a.iter().map(|x| (x["kind"].as_u64().unwrap() as usize, x["section"].as_u64().unwrap() as usize)).collect()).unwrap_or_default(),
             queries: v["queries"].as_array().unwrap().iter().map(|q| (q[0].as_str().unwrap().to_string(), q[1].as_str().unwrap().to_string())).collect(),
+            case_rand: v["case_randomization"].as_bool().unwrap_or(false),
         }
     }
     fn internet(&self) -> Internet {
@@ -792,7 +797,7 @@ fn followups(hz: usize) -> Vec<(String, String)> {
 fn run_and_judge(desc: &CaseDesc, honest: Option<&Run>, l: &mut Local) -> Run {
     l.eval();
     let inet = Arc::new(desc.internet());
-    let run = execute_caught(inet.clone(), desc.limits, &desc.parsed_queries());
+    let run = execute_caught(inet.clone(), desc.limits, desc.case_rand, &desc.parsed_queries());
     let wit = || {
         let mut j = desc.to_json();
         j["observed"] = run.to_json();
@@ -1047,7 +1052,7 @@ fn main() {
                 let mut h = desc.clone();
                 h.hostile = None;
                 h.inj.clear();
-                execute_caught(Arc::new(h.internet()), h.limits, &h.parsed_queries())
+                execute_caught(Arc::new(h.internet()), h.limits, h.case_rand, &h.parsed_queries())
             });
             run_and_judge(&desc, honest.as_ref(), l);
         });
@@ -1059,7 +1064,7 @@ fn main() {
          l.t.: in-zone+glue, no-glue, sibling-tld, sibling-leaf, parent-zone; v.o.: in-zone+glue, sibling-tld, sibling-leaf; 120 graphs incl. all mutual glueless cycles) x 1 (quick) / 1-2 (thorough) servers per zone \
          x 8 queries x limits {(4,4),(8,8),(24,24)}, honest; (B) every graph x hostile zone in {t., o., l.t., v.o.} (all its servers) x injection kind (9: victim A, victim-zone NS+glue, victim-parent NS+glue, root NS+glue, \
          CNAME->victim + victim A, in-bailiwick A at a denied answer address, in-bailiwick NS + glue at a denied server address, sibling A, victim NS + victim glue) x section {answer, authority, additional} added to EVERY response \
-         x main query, followed on the same recursor by 3-4 follow-up queries for names outside the hostile subtree; thorough adds all unordered pairs of injections on the plain graph; \
+         x main query, followed on the same recursor by 3-4 follow-up queries for names outside the hostile subtree; thorough adds all unordered pairs of injections on the plain graph and on every graph that differs from it in one NS style; \
          (C) lame kinds {REFUSED, upward referral, self referral, empty NOERROR, timeout} x zone x {1 server, 2 servers both lame, 2 servers first lame}; \
          (D) CNAME chains 1..70 (in-zone / cross-zone, server chases in-zone or not), CNAME loops 1..3, NS-for-NS chains 1..30, glueless cycles 1..8 (1 NS name) / 1..6 (2 NS names), delegation depth 1..40, each x limits; \
          (E) stub CachingClient: CNAME chains 1..20, loops 1..3, 1-2 CNAMEs per response, preserve_intermediates on/off. \
@@ -1079,13 +1084,13 @@ fn main() {
     for s in &specs {
         for lim in limits_all {
             for q in &queries {
-                honest_descs.push(CaseDesc { spec: s.clone(), limits: lim, hostile: None, inj: vec![], queries: vec![(q.0.to_string(), q.1.to_string())] });
+                honest_descs.push(CaseDesc { spec: s.clone(), limits: lim, hostile: None, inj: vec![], queries: vec![(q.0.to_string(), q.1.to_string())], case_rand: false });
             }
         }
     }
     for s in lame_specs() {
         for q in &queries {
-            honest_descs.push(CaseDesc { spec: s.clone(), limits: (8, 8), hostile: None, inj: vec![], queries: vec![(q.0.to_string(), q.1.to_string())] });
+            honest_descs.push(CaseDesc { spec: s.clone(), limits: (8, 8), hostile: None, inj: vec![], queries: vec![(q.0.to_string(), q.1.to_string())], case_rand: false });
         }
     }
     ctx.set("graphs", json!(specs.len()));
@@ -1095,7 +1100,7 @@ fn main() {
         let run = run_and_judge(d, None, l);
         let order_dependent = d.spec.lame.map(|(_, all, _)| !all).unwrap_or(false);
         if i % 8 == 0 && !order_dependent {
-            let again = execute_caught(Arc::new(d.internet()), d.limits, &d.parsed_queries());
+            let again = execute_caught(Arc::new(d.internet()), d.limits, d.case_rand, &d.parsed_queries());
             let inet = d.internet();
             if again.digest(&inet) != run.digest(&inet) {
                 ctx.machinery_failure(&format!("nondeterminism: {} gave two different observations", d.to_json()));
@@ -1112,12 +1117,36 @@ fn main() {
 
     // the plain graph must resolve: otherwise everything below is vacuous
     {
-        let d = CaseDesc { spec: Spec::base(), limits: (8, 8), hostile: None, inj: vec![], queries: vec![("www.l.t.".into(), "A".into()), ("alias.l.t.".into(), "A".into())] };
-        let run = execute_caught(Arc::new(d.internet()), d.limits, &d.parsed_queries());
+        let d = CaseDesc { spec: Spec::base(), limits: (8, 8), hostile: None, inj: vec![], queries: vec![("www.l.t.".into(), "A".into()), ("alias.l.t.".into(), "A".into())], case_rand: false };
+        let run = execute_caught(Arc::new(d.internet()), d.limits, d.case_rand, &d.parsed_queries());
         let ok = run.steps.iter().all(|s| matches!(&s.outcome, Outcome::Ok { answers, .. } if answers.iter().any(|r| r.record_type() == RecordType::A)));
         if !ok {
             ctx.machinery_failure(&format!("vacuous: the plain graph does not resolve: {}", run.to_json()));
         }
+    }
+
+    // ---------------- 0x20: with case randomisation every observation is the same (names are
+    // compared case-insensitively; the simulated servers echo the question as asked)
+    {
+        let mut cases = vec![];
+        for s in specs.iter().filter(|s| s.style.iter().sum::<usize>() <= 1) {
+            for q in &queries {
+                cases.push(CaseDesc { spec: s.clone(), limits: (8, 8), hostile: None, inj: vec![], queries: vec![(q.0.to_string(), q.1.to_string())], case_rand: true });
+            }
+        }
+        ctx.set("case_randomization_cases", json!(cases.len()));
+        ctx.par_run(cases.len() as u64, 4, |i, l| {
+            let d = &cases[i as usize];
+            let run = run_and_judge(d, None, l);
+            let mut plain = d.clone();
+            plain.case_rand = false;
+            let inet = d.internet();
+            let reference = execute_caught(Arc::new(plain.internet()), plain.limits, false, &plain.parsed_queries());
+            if reference.digest(&inet) != run.digest(&inet) {
+                ctx.machinery_failure(&format!("0x20 leak: {} differs from the run without case randomisation", d.to_json()));
+            }
+            l.outcome("selftest:case-randomisation-invisible");
+        });
     }
 
     // ---------------- (B) hostile zones
@@ -1131,7 +1160,7 @@ fn main() {
                 qs.extend(followups(hz));
                 // and the main query once more: what the first resolution left in the caches
                 qs.push((q.0.to_string(), q.1.to_string()));
-                refs.push((CaseDesc { spec: s.clone(), limits: inj_limits, hostile: None, inj: vec![], queries: qs }, hz));
+                refs.push((CaseDesc { spec: s.clone(), limits: inj_limits, hostile: None, inj: vec![], queries: qs, case_rand: false }, hz));
             }
         }
     }
@@ -1139,7 +1168,7 @@ fn main() {
     ctx.par_run(refs.len() as u64, 8, |i, l| {
         let (d, _) = &refs[i as usize];
         l.eval();
-        let run = execute_caught(Arc::new(d.internet()), d.limits, &d.parsed_queries());
+        let run = execute_caught(Arc::new(d.internet()), d.limits, d.case_rand, &d.parsed_queries());
         *ref_runs[i as usize].lock().unwrap() = Some(run);
     });
     let ref_runs: Vec<Run> = ref_runs.into_iter().map(|m| m.into_inner().unwrap().unwrap()).collect();
@@ -1158,7 +1187,7 @@ fn main() {
                 jobs.push((ri, vec![(k, s)]));
             }
         }
-        if thorough && d.spec == Spec::base() {
+        if thorough && d.spec.nserv == 1 && d.spec.style.iter().sum::<usize>() <= 1 {
             let all: Vec<(usize, usize)> = (0..KINDS.len()).flat_map(|k| (0..SECTIONS.len()).map(move |s| (k, s))).collect();
             for a in 0..all.len() {
                 for b in a + 1..all.len() {
@@ -1177,7 +1206,7 @@ fn main() {
         d.inj = inj.clone();
         let run = run_and_judge(&d, Some(&ref_runs[*ri]), l);
         if i % 64 == 0 {
-            let again = execute_caught(Arc::new(d.internet()), d.limits, &d.parsed_queries());
+            let again = execute_caught(Arc::new(d.internet()), d.limits, d.case_rand, &d.parsed_queries());
             let inet = d.internet();
             // once an attacker address sits in a pool next to a genuine one, which of the two is
             // asked depends on hickory's random initial SRTT: such runs are already violations
@@ -1207,7 +1236,7 @@ fn main() {
     ctx.par_run(tjobs.len() as u64, 2, |i, l| {
         let (fi, vi, lim) = tjobs[i as usize];
         let (nn, spec, q) = &fams[fi].1[vi];
-        let d = CaseDesc { spec: spec.clone(), limits: lim, hostile: None, inj: vec![], queries: vec![q.clone()] };
+        let d = CaseDesc { spec: spec.clone(), limits: lim, hostile: None, inj: vec![], queries: vec![q.clone()], case_rand: false };
         let run = run_and_judge(&d, None, l);
         l.outcome(&format!("termination:{}:{}", fams[fi].0.split(':').next().unwrap(), run.steps[0].outcome.class()));
         counts.lock().unwrap().entry((fi, lim)).or_default().insert(*nn, (run.steps[0].log.len(), run.steps[0].outcome.class()));
